@@ -155,7 +155,12 @@ def _gen_body(rng, depth, c):
                                if rng.random() < 0.7 else []})
                 fin = None
                 if not hs or rng.random() < 0.4:
-                    fin = _gen_body(rng, depth + 1, c) if rng.random() < 0.6 else []
+                    # no bare `raise` directly in a finally block: while `raise gen.Return(v)`
+                    # propagates it is the "current exception", so `finally: raise` re-raises
+                    # the Return in the decorated form but the handler's exception after the
+                    # native `return v` — a difference of the two spellings, not of Tornado
+                    fin = _gen_body(rng, depth + 1, dict(c, in_handler=False)) \
+                        if rng.random() < 0.6 else []
                 out.append({"t": "try", "body": _gen_body(rng, depth + 1, c), "hs": hs, "fin": fin})
             else:
                 out.append({"t": "emit", "n": rng.randint(0, 9)})
